@@ -89,7 +89,7 @@ func TestVerifC12Frames(t *testing.T) {
 	pop.c12BuildCorpus(cr)
 	emp.c12BuildCorpus(cr)
 	rep.Note("corpus: %d items on the populated chain, %d on the empty chain", len(pop.corpus), len(emp.corpus))
-	n := c12Scale(78000, 2600000)
+	n := c12Scale(130000, 2600000)
 	from := 0
 	if v, err := strconv.Atoi(os.Getenv("VERIF_C12_FROM")); err == nil { // development aid: run cases [FROM, TO) only
 		from = v
@@ -169,6 +169,9 @@ func c12FrameCase(c *c12Ctx, s *c12Sut, r *verifutil.Rng, i int) {
 	switch cls {
 	case 0:
 		mut = "valid"
+		if code == protocol.Handshake {
+			payload = c12HandshakePayload(s.node.R, time.Now().UTC().Unix(), s.headH+uint64(r.Intn(50))) // the timestamp must be fresh
+		}
 		frame = c12Frame(code, payload, shard, comp)
 	case 1:
 		m, l, ok := verifutil.MutateWire(r, payload, 3000)
